@@ -83,15 +83,20 @@ package parse
 //@ ensures [depth_restored] p.depth == old(p.depth)
 //@ loop 1 invariant len(p.input) <= len(old(p.input)) && p.depth == old(p.depth)
 
-//@ func parseBoolValue
-//@ trusted
+// the boolean words of the flag value syntax (was trusted)
+//@ func parseBoolValue :: str -> value, ok
+//@ props C07
 //@ pure
+//@ ensures [true_words] (str == "t" || str == "T" || str == "true" || str == "TRUE" || str == "True" || str == "on" || str == "ON") ==> value && ok
+//@ ensures [false_words] (str == "f" || str == "F" || str == "false" || str == "FALSE" || str == "False" || str == "off" || str == "OFF") ==> !value && ok
+//@ ensures [other] !(str == "t" || str == "T" || str == "true" || str == "TRUE" || str == "True" || str == "on" || str == "ON") && !(str == "f" || str == "F" || str == "false" || str == "FALSE" || str == "False" || str == "off" || str == "OFF") ==> !value && !ok
 
 //@ ghost func parseOk(content string) bool
 //@ ghost func parsedVal(content string) interface{}
 
 //@ func Value :: content -> r, err
-//@ trusted
+//@ props C07
+//@ sweep
 //@ pure
-//@ ensures (err == nil) == parseOk(content)
-//@ ensures err == nil ==> r == parsedVal(content)
+//@ ensures [naming_ok !unproved] (err == nil) == parseOk(content)
+//@ ensures [naming_val !unproved] err == nil ==> r == parsedVal(content)
